@@ -120,6 +120,18 @@ def collection_tree_generator(
             )
 
 
+def _refuse_non_objects(inp):
+    """Raise if `inp` (an object or a possibly nested list of objects) contains something that
+    is no Magpylib object: such entries are refused, not silently dropped."""
+    for obj in inp if isinstance(inp, (list, tuple)) else [inp]:
+        if isinstance(obj, (list, tuple)):
+            _refuse_non_objects(obj)
+        else:
+            check_format_input_obj(
+                [obj], allow="collections", recursive=False, typechecks=True
+            )
+
+
 class BaseCollection(BaseDisplayRepr):
     """Collection base class without BaseGeo properties"""
 
@@ -143,6 +155,8 @@ class BaseCollection(BaseDisplayRepr):
     @children.setter
     def children(self, children):
         """Set Collection children."""
+        if not isinstance(children, (list, tuple)):
+            children = [children]
         self._replace_children(list(self._children), children)
 
     def _replace_children(self, removed, new_children):
@@ -212,6 +226,7 @@ class BaseCollection(BaseDisplayRepr):
     @collections.setter
     def collections(self, collections):
         """Set Collection collections."""
+        _refuse_non_objects(collections)
         coll_list = format_obj_input(collections, allow="collections")
         removed = [child for child in self._children if child in self._collections]
         self._replace_children(removed, coll_list)
